@@ -410,6 +410,19 @@ fn judge_writer(t: &mut Tally, v: &V, what: &str) {
 				continue;
 			}
 			for k in 0..clean.out.len() {
+				// a writer that is simply full (reports Ok(0), like a fixed-size buffer): the translation
+				// must not report success with part of the output missing
+				for reader in [false, true] {
+					let (w, acc) = FailAtWriter::zero(k);
+					let (ok, _, panic) = if reader { run_reader_to(ChunkReader::new(&bytes, 0), Some(src), to, w) } else { run_slice_to(&bytes, Some(src), to, w) };
+					t.evaluations += 1;
+					t.count("writer:full-buffer");
+					if panic.is_some() || (ok && *acc.borrow() != clean.out) {
+						let case = json!({"kind": "writer", "src": src.name(), "to": to.name(), "bytes_hex": hex(&bytes), "text": show(&bytes), "k": k, "reader": reader, "value": v.dump()});
+						t.bad(format!("write-failure-not-reported:{}", to.name()), case,
+							format!("{what}: {} ({}) -> {} into a writer that is full after {k} of {} bytes [{}]: {}", show(&bytes), src.name(), to.name(), clean.out.len(), if reader { "reader" } else { "slice" }, if ok { "the translation returned Ok".to_string() } else { format!("panic {panic:?}") }));
+					}
+				}
 				for reader in [false, true] {
 					let (w, _) = FailAtWriter::new(k);
 					let (ok, err, panic) = if reader { run_reader_to(ChunkReader::new(&bytes, 0), Some(src), to, w) } else { run_slice_to(&bytes, Some(src), to, w) };
@@ -524,7 +537,7 @@ pub fn run(ctx: &Ctx) -> CheckOutput {
 	let mut required = vec![
 		req("refusal:judged:json"), req("refusal:judged:yaml"), req("refusal:judged:toml"),
 		req("writer:json:comma"), req("writer:json:colon"), req("writer:json:open-bracket"), req("writer:json:close-bracket"),
-		req("writer:json:newline"), req("writer:json:string-piece"), req("writer:json:scalar"), req("writer:yaml:byte"), req("writer:msgpack:byte"), req("writer:toml:byte"),
+		req("writer:full-buffer"), req("writer:json:newline"), req("writer:json:string-piece"), req("writer:json:scalar"), req("writer:yaml:byte"), req("writer:msgpack:byte"), req("writer:toml:byte"),
 	];
 	for s in ["json", "yaml", "msgpack", "toml"] {
 		required.push(req(&format!("syntax:judged:{s}:slice")));
